@@ -12,7 +12,9 @@
     conclusion of the C01 theorems about cds::gc::HP, not of this file. *)
 From Coq Require Import ZArith List String.
 From LV Require Import Base.Conc Base.Events Base.Lin Spec.Specs.
-From LV Require Import Model.MichaelList Proofs.MichaelListBase Proofs.MichaelListInv Proofs.MichaelListProofs.
+From LV Require Import Model.MichaelList Proofs.MichaelListBase Proofs.MichaelListInv Proofs.MichaelListProofs
+                       Proofs.MichaelListFullProofs.
+From LV Require Model.LazyList Model.IterList Proofs.LazyListDefs Proofs.IterListDefs.
 Import ListNotations.
 Local Open Scope Z_scope.
 
@@ -49,17 +51,47 @@ Theorem C13_mlist_updates_history_linearizable :
 Proof. exact mlist_updates_linearizable_partial'. Qed.
 Print Assumptions C13_mlist_updates_history_linearizable.
 
-(** NOT PROVED: the full statement, including the operations whose linearization point is not a fixed
-    instruction of their own code (a failed insert / erase and find / contains / get linearize at the last
-    validated read of their traversal, possibly inside another thread's step).  What is missing is the
-    standard hindsight argument for Michael's list: an unmarked node seen through a validated link
-    pPrev -> pCur was in the abstract set at that read.  The invariant of Proofs/MichaelListInv.v already
-    carries the needed structure (published nodes, frozen marked nodes); the read-side LP bookkeeping is not done.
-    On sampled executions the full histories are decided by the verified lincheck (checks/C13.py). *)
-Definition mlist_linearizable_statement : Prop :=
+(** FULL linearizability of the MichaelList model, reads included.  [full_hist tr] is the complete invoke/response
+    history of the trace: insert / insert with functor -> SInsert k, update -> SUpdate k bAllowInsert (result pair),
+    erase / erase with functor / unlink / extract -> SErase k, get / contains / find -> SContains k; the only
+    events left out are unlink calls that returned false (unlink( val ) fails both when the key is absent and when
+    the list holds another item with that key: not an operation of the sequential set; the harness skips them as
+    well).  For every number of threads, every client program and EVERY schedule the history of every reachable
+    configuration is the history of an LP-annotated trace that is valid for SetSpec, hence linearizable.
+    Linearization points: link CAS (insert, inserting update), mark CAS (erase, unlink, extract); a failed insert /
+    erase, an update of an existing key and contains / find / get linearize at the last of their own accesses that
+    observed the key present (unmarked next field of a node with that key) or absent (an unmarked link from a
+    smaller node to a larger one or to null): Proofs/MichaelListFullInv.v. *)
+Theorem C13_mlist_linearizable_lp :
+  forall (fuel sf : nat) (ic : bool) (ths : list (list (list Z))) c,
+    Conc.reach (MichaelList.init_cfg fuel sf ic ths) c ->
+    exists atr, lp_valid SetSpec atr /\ erase atr = full_hist (Conc.trace c).
+Proof. exact mlist_linearizable_lp. Qed.
+Print Assumptions C13_mlist_linearizable_lp.
+
+Theorem C13_mlist_linearizable :
   forall (fuel sf : nat) (ic : bool) (ths : list (list (list Z))) c,
     Conc.reach (MichaelList.init_cfg fuel sf ic ths) c ->
     linearizable SetSpec (full_hist (Conc.trace c)).
+Proof. exact mlist_linearizable. Qed.
+Print Assumptions C13_mlist_linearizable.
+
+(** NOT PROVED (statements only): the other two list kinds.  Their step models LV.Model.LazyList and
+    LV.Model.IterList are tied to the real code by step correspondence (checks/C13.py) and their real histories
+    are decided by the verified lincheck, but no invariant proof exists yet.
+    LazyList: needs the lock-ownership invariant (only the holder of a node's spin lock writes its next / mark) and a
+    ghost successor for a node between the two stores of unlink_node.
+    IterableList: needs the neighbour-marking protocol of link_data (both data cells frozen) and the find_prev
+    re-check against ABA on a null predecessor. *)
+Definition lazy_sorted_nodup_statement : Prop :=
+  forall (fuel sf : nat) (ic : bool) (ths : list (list (list Z))) c,
+    Conc.reach (LazyList.init_cfg fuel sf ic ths) c ->
+    LazyListDefs.increasing (LazyListDefs.lazy_keys (Conc.shared c)).
+
+Definition iter_sorted_nodup_statement : Prop :=
+  forall (fuel sf : nat) (ic : bool) (ths : list (list (list Z))) c,
+    Conc.reach (IterList.init_cfg fuel sf ic ths) c ->
+    LazyListDefs.increasing (IterListDefs.iter_keys (Conc.shared c)).
 
 (** non-vacuity: a concrete 2-thread run (item counter on) with contended CASes in which inserts, an inserting
     update, an erase and an extract succeed, an update finds its key, an unlink of a foreign item fails; it
@@ -84,3 +116,14 @@ Proof.
   cbv zeta. split; [vm_compute; reflexivity|]. split; [apply Conc.run_reach|].
   vm_compute. repeat split; reflexivity.
 Qed.
+
+(** sanity of the two unproved statements on one concrete run each (a test, not a theorem): the same programs and
+    schedule on the LazyList and IterableList models; the walks are strictly increasing at the end. *)
+Example C13_lazy_iter_statements_sample :
+  let cl := fst (Conc.run 5000 0 ex_sched (LazyList.init_cfg 64 400 true ex_threads)) in
+  let ci := fst (Conc.run 5000 0 ex_sched (IterList.init_cfg 64 400 true ex_threads)) in
+  LazyListDefs.increasingb (LazyListDefs.lazy_keys (Conc.shared cl)) = true /\
+  LazyListDefs.lazy_keys (Conc.shared cl) = [3] /\
+  LazyListDefs.increasingb (IterListDefs.iter_keys (Conc.shared ci)) = true /\
+  IterListDefs.iter_keys (Conc.shared ci) = [3].
+Proof. vm_compute. repeat split; reflexivity. Qed.
